@@ -29,6 +29,7 @@ def run(ctx):
     R2 = ctx.rule('C04.R2', 'filter output: an entry is copied verbatim only if it is not invalid; invalid entries are removed or escaped')
     R3 = ctx.rule('C04.R3', 'the escape switch neutralises < > & " for every byte (abstract interpretation) and copies every other byte')
     R6 = ctx.rule('C04.R6', 'validate_entry_by_rules handles every html_data_type explicitly; invalid / unparsed entries and unknown kinds are rejected; tags and attributes consult the white-list')
+    R9 = ctx.rule('C04.R9', 'tag names are compared exactly when nesting is validated: ascii_streq is true iff both names have the same length and agree byte for byte (XHTML) / up to ASCII case (HTML) (E3, names of 0..3 bytes)')
     R7 = ctx.rule('C04.R7', 'attribute / URI expressions are matched as whole strings (regex_match only)')
 
     va = [f for f in P.by_bname.get(X + 'validate', []) if len(f.params) == 3 and 'const char *' in f.id]
@@ -229,8 +230,46 @@ def run(ctx):
     for f in uv:
         rm = [i for i in f.calls() if (f.bcallee(i) or '') == 'booster::regex_match']
         ctx.check(len(rm) >= 1, R7, 'uri_validator:scheme-whole-match', 'URI scheme is not matched as a whole', f.where)
+
+    # ---------------- R9 ascii_streq exact (E3) and used by validate_nesting for every closing tag
+    from vlib.absint import Arr, PV
+    se = P.fn(ANON + 'ascii_streq')
+    low = lambda v: v + 32 if 65 <= v <= 90 else v
+    REPS = [0x41, 0x61, 0x5A, 0x7A, 0x40, 0x5B, 0x60, 0x7B, 0x30, 0x2D, 0xC1, 0xE1]
+    for xh in (1, 0):
+        for (la, lb) in ((0, 0), (1, 1), (2, 2), (3, 3), (0, 1), (1, 0), (1, 2), (2, 1), (2, 3), (3, 1)):
+            bad = None
+            nb = 0
+            for rep in (REPS if la and la == lb else REPS[:2]):
+                for pos in (range(lb) if la == lb and lb else [None]):
+                    left = [rep] * la
+
+                    def runs(it, left=left, lb=lb, pos=pos, rep=rep, xh=xh):
+                        sg = lambda v: v - 256 if v > 127 else v
+                        a = Arr([AV.const(sg(v)) for v in left] + [AV.const(0)], 'left')
+                        right = [AV.const(sg(rep))] * lb
+                        if pos is not None:
+                            right[pos] = it.inbyte(0)
+                        b = Arr(right + [AV.const(0)], 'right')
+                        return it.call_fn(se, [PV(a, 0), PV(a, len(left)), PV(b, 0), PV(b, lb), AV.const(xh)])
+                    for (bx, r, it) in absint.explore(P, runs, [[(-128, 127)]] if pos is not None else [[]]):
+                        nb += 1
+                        if pos is None:
+                            want = {la == lb}
+                        else:
+                            vals = [v & 0xFF for v in range(bx[0][0], bx[0][1] + 1)]
+                            want = set(((v == rep) if xh else (low(v) == low(rep))) for v in vals)
+                        if not (isinstance(r, AV) and r.is_const()) or want != {bool(r.lo)}:
+                            bad = bad or ('left=%r right varies at %s in %s' % (left, pos, bx), r)
+            ctx.check(bad is None, R9, 'ascii_streq:%s:len=%d/%d' % ('xhtml' if xh else 'html', la, lb), ('%s -> %r' % bad) if bad else '', se.where, detail={'boxes': nb})
+    vn = P.fn(ANON + 'validate_nesting')
+    cmpc = [i for i in vn.calls() if vn.bcallee(i) == ANON + 'ascii_streq']
+    pairw = [w for w in q.field_writes(vn, 'tag_data::pair') if True]
+    g_eq = q.call_gate(vn, lambda i: i in cmpc, True)
+    ctx.check(bool(cmpc) and bool(pairw) and all(vn.only_through(w, g_eq) for w in pairw), R9, 'validate_nesting:pairing-only-on-equal-names', 'a closing tag is paired with an opening tag without the name comparison', vn.where)
     ctx.floor(R1, 30)
     ctx.floor(R2, 4)
     ctx.floor(R6, 18)
     ctx.floor(R7, 1)
+    ctx.floor(R9, 18)
     ctx.notes.append('the anchoring of booster::regex::match itself (PCRE_ANCHORED, "(?:...)\\\\z") is decided by C20.R1')
